@@ -229,6 +229,12 @@ Denote(idx, q) ==
     [] q.op = "numrange" ->
          Const({d \in Live(idx) : \E i \in DOMAIN Nums(idx, d, q.f) : InRange(Nums(idx, d, q.f)[i], q)},
                Scale(Unit, q.b4))
+    \* ColumnQuery: the documents whose (first) per-document value satisfies the condition; constant score 1.
+    \* (Only conditions that the value standing in for "no value" cannot satisfy are asked: = v and <= v.)
+    [] q.op = "colq" ->
+         Const({d \in Live(idx) : /\ Nums(idx, d, q.f) # <<>>
+                                   /\ IF q.rel = "eq" THEN Nums(idx, d, q.f)[1] = q.v ELSE Nums(idx, d, q.f)[1] <= q.v},
+               Unit)
 
 \* queries whose score the documentation fixes (C09): everything built from
 \* term / every / const / multi-term (constant: the boost) leaves with and/or/dismax/andnot/andmaybe/require;
@@ -237,7 +243,7 @@ RECURSIVE Scored(_)
 Scored(q) ==
   CASE q.op \in {"term", "every", "const", "null"} -> TRUE
     \* multi-term queries score a constant, the boost (constantscore=True is their default)
-    [] q.op \in {"prefix", "wildcard", "termrange", "numrange"} -> TRUE
+    [] q.op \in {"prefix", "wildcard", "termrange", "numrange", "colq"} -> TRUE
     [] q.op \in {"and", "or", "dismax"} -> \A i \in DOMAIN q.kids : Scored(q.kids[i])
     [] q.op \in {"andnot", "require"} -> Scored(q.a)
     [] q.op = "andmaybe" -> Scored(q.a) /\ Scored(q.b)
